@@ -1,12 +1,13 @@
 """C15 — container iterators are snapshot-or-panic (deque, heap, priority queue)."""
 import vlib
 from deque_common import DequeSpec
+from heap_common import HeapSpec, PQSpec
 
-PROP_FILES = ["C15_deque"]
+PROP_FILES = ["C15_deque", "C15_heap"]
 
 
 def run(ctx):
-    proofs_ok = ctx.check_proofs(PROP_FILES, extra_targets=["theories/Deque/Corr.vo"])
+    proofs_ok = ctx.check_proofs(PROP_FILES, extra_targets=["theories/Deque/Corr.vo", "theories/Heap/Corr.vo"])
     ok, out, exe = vlib.build_runner()
     if not ok:
         ctx.violation("harness-build", "the harness does not build against the current tree: " + out[-1500:],
@@ -15,6 +16,8 @@ def run(ctx):
     spec = DequeSpec(iterators=True)
     part = vlib.seq_differential(ctx, spec, exe, proofs_ok, tag="deque")
     part.get("distribution", {}).pop("_tri", None)
+    vlib.seq_differential(ctx, HeapSpec(iterators=True), exe, proofs_ok, tag="heap")
+    vlib.seq_differential(ctx, PQSpec(iterators=True), exe, proofs_ok, tag="pq")
     vlib.merge_parts(ctx, "cases = container operation sequences interleaved with creation and Next calls of several live iterators; "
                      "distinct = hash of the op list; non-trivial = >= 5 ops and at least one value observed")
     vlib.handle_broken_proof(ctx)
